@@ -50,7 +50,7 @@ WRITES = {"add", "add_price", "add_value", "remove", "remove_keep", "collect", "
 
 
 def plan(tier, seed):
-    n = 44 if tier == "quick" else 1500
+    n = 200 if tier == "quick" else 1500
     return [{"shard": i, "cases": n} for i in range(NSHARDS)]
 
 
